@@ -49,8 +49,11 @@
 (*     An exception unwinds the whole stack: no frame of the decorators catches anything. *)
 (* (P) invariants / action properties at the bottom: Transparent (R returns what O        *)
 (*     returns; the only licensed differences are the TypeError for unhashable arguments  *)
-(*     and twins), StoreSound, CountersConsistent, FreshObjects, ReadOnly, and the action *)
-(*     properties Isolation, CachedNeverChanges, ComputeOnlyWhenAbsent.                   *)
+(*     and twins: after f(1), f(1.0) gets the entry of f(1) - even where the undecorated  *)
+(*     f(1.0) would raise, e.g. tuples vs the namedtuples they equal), StoreSound,        *)
+(*     PropSound, CountersConsistent, FreshObjects, ReadOnly, HitRunsNothing,             *)
+(*     MissRunsBody and the action properties Isolation, CachedNeverChanges,              *)
+(*     ComputeOnlyWhenAbsent.                                                             *)
 (*                                                                                      *)
 (* Two uses (per world): trace = <<>>  -> MC + pipeline A: TLC explores every sequence of *)
 (*     <= L top-level operations; one record per quiescent state (view includes `last`,   *)
@@ -87,9 +90,6 @@ MDeps(w, o, m) == w.meths[m].deps[Cls(w, o)]
 PDeps(w, o, p) == w.props[p].deps[Cls(w, o)]
 MVal(w, o, m, s, b) == IF MKind(w, o, m, s) = "val" THEN [k |-> "val", o |-> o, f |-> m, b |-> b] ELSE Plain(MKind(w, o, m, s))
 PVal(w, o, p) == IF PKind(w, o, p) = "val" THEN [k |-> "val", o |-> o, f |-> 0 - p, b |-> <<>>] ELSE Plain(PKind(w, o, p))
-EcSeq(w, b) == [j \in 1..Len(b) |-> w.atoms[b[j]].ec]
-\* equal up to twins (arguments that python's == identifies)
-SameUpToTwin(w, x, y) == x.k = y.k /\ x.o = y.o /\ x.f = y.f /\ EcSeq(w, x.b) = EcSeq(w, y.b)
 
 \* ---------------------------------------------------------------- spellings, keys, binding
 Sp(w, m, s) == w.meths[m].sps[s]
@@ -115,9 +115,10 @@ Bind(w, m, sp) ==
   IN IF bad THEN [ok |-> FALSE, b |-> <<>>] ELSE [ok |-> TRUE, b |-> [j \in 1..n |-> val(j)]]
 
 Has(store, kp, kk) == \E e \in store : e.kp = kp /\ e.kk = kk
-Get(store, kp, kk) == (CHOOSE e \in store : e.kp = kp /\ e.kk = kk).v
-\* dict assignment cache[key] = v
-Put(store, kp, kk, v) == {e \in store : ~(e.kp = kp /\ e.kk = kk)} \cup {[kp |-> kp, kk |-> kk, v |-> v]}
+Entry(store, kp, kk) == CHOOSE e \in store : e.kp = kp /\ e.kk = kk
+Get(store, kp, kk) == Entry(store, kp, kk).v
+\* dict assignment cache[key] = v   (b: the bound arguments of the call that computed v - history only)
+Put(store, kp, kk, v, b) == {e \in store : ~(e.kp = kp /\ e.kk = kk)} \cup {[kp |-> kp, kk |-> kk, v |-> v, b |-> b]}
 
 \* ---------------------------------------------------------------- (O) the undecorated semantics
 UErr(e) == [st |-> "err", err |-> e, v |-> NoVal]
@@ -235,11 +236,11 @@ MHit ==
   /\ Running("call", "lookup")
   /\ HashableSp(W, TopSp)
   /\ Has(TopC.store, PosKey(W, TopSp), KwKey(W, TopSp))
-  /\ LET v  == Get(TopC.store, PosKey(W, TopSp), KwKey(W, TopSp))
+  /\ LET e  == Entry(TopC.store, PosKey(W, TopSp), KwKey(W, TopSp))
          bd == Bind(W, Top.m, TopSp)
-     IN /\ stack' = SetTop([Top EXCEPT !.pc = "count", !.v = v])
-        /\ last' = IF AtTop THEN [last EXCEPT !.hit = "hit", !.twin = IF bd.ok /\ v.k = "val" /\ v.b # bd.b THEN 1 ELSE 0]
-                   ELSE last
+         tw == IF e.b # bd.b THEN 1 ELSE last.twin        \* the entry was computed for an equal argument of another type
+     IN /\ stack' = SetTop([Top EXCEPT !.pc = "count", !.v = e.v])
+        /\ last' = IF AtTop THEN [last EXCEPT !.hit = "hit", !.twin = tw] ELSE [last EXCEPT !.twin = tw]
   /\ UNCHANGED <<nobj, cache, pv>>
 MMiss ==
   /\ Running("call", "lookup")
@@ -286,7 +287,7 @@ MEval ==
 \* cache[key] = <result>; cache_info['misses'] += 1
 MStore ==
   /\ Running("call", "store")
-  /\ cache' = [cache EXCEPT ![Top.o][Top.m].store = Put(@, PosKey(W, TopSp), KwKey(W, TopSp), Top.v),
+  /\ cache' = [cache EXCEPT ![Top.o][Top.m].store = Put(@, PosKey(W, TopSp), KwKey(W, TopSp), Top.v, Bind(W, Top.m, TopSp).b),
                             ![Top.o][Top.m].misses = @ + 1]
   /\ stack' = SetTop([Top EXCEPT !.pc = "count"])
   /\ UNCHANGED <<nobj, pv, last>>
@@ -353,24 +354,30 @@ TypeOK ==
 Transparent ==
   (Quiet /\ last.t \in {"call", "read"}) =>
     LET u == UOp(W, last.o, last.t, last.m, last.s) IN
-    /\ last.st = "ok"  => (u.st = "ok" /\ SameUpToTwin(W, last.v, u.v) /\ (last.twin = 0 => last.v = u.v))
+    /\ (last.st = "ok" /\ last.twin = 0) => (u.st = "ok" /\ last.v = u.v)
+    /\ (last.st = "ok" /\ last.twin = 1 /\ last.t = "call" /\ last.hit = "hit") =>
+          \E s2 \in 1..Len(W.meths[last.m].sps) :
+             LET sp2 == Sp(W, last.m, s2) u2 == UOp(W, last.o, "call", last.m, s2) IN
+             /\ PosKey(W, sp2) = PosKey(W, Sp(W, last.m, last.s)) /\ KwKey(W, sp2) = KwKey(W, Sp(W, last.m, last.s))
+             /\ u2.st = "ok" /\ u2.v = last.v
     /\ last.st = "err" => \/ last.err = "Unhashable" /\ Unh(W, last.o, last.t, last.m, last.s)
                           \/ u.st = "err" /\ u.err = last.err
-    /\ u.st = "err"    => last.st = "err"
+                          \/ last.twin = 1
+    /\ u.st = "err"    => (last.st = "err" \/ last.twin = 1)
 \* every stored entry is the result of THIS object's THIS method for a spelling with THIS key
 StoreSound ==
-  \A o \in OBJ : \A m \in 1..NM : \A e \in cache[o][m].store :
+  Quiet => \A o \in OBJ : \A m \in 1..NM : \A e \in cache[o][m].store :
      \E s \in 1..Len(W.meths[m].sps) :
         LET sp == Sp(W, m, s) bd == Bind(W, m, sp) IN
         /\ PosKey(W, sp) = e.kp /\ KwKey(W, sp) = e.kk /\ HashableSp(W, sp)
-        /\ bd.ok /\ e.v = MVal(W, o, m, s, bd.b)
+        /\ bd.ok /\ e.b = bd.b /\ e.v = MVal(W, o, m, s, bd.b)
 PropSound ==
   \A o \in OBJ : \A p \in 1..NP : pv[o][p].set = 1 => pv[o][p].v = PVal(W, o, p)
 \* one entry per key; misses = number of entries; counters exist iff the store exists; hits >= misses when quiet
 CountersConsistent ==
   \A o \in OBJ : \A m \in 1..NM :
      LET c == cache[o][m] IN
-     /\ \A e1 \in c.store : \A e2 \in c.store : (e1.kp = e2.kp /\ e1.kk = e2.kk) => e1 = e2
+     /\ (Quiet => \A e1 \in c.store : \A e2 \in c.store : (e1.kp = e2.kp /\ e1.kk = e2.kk) => e1 = e2)
      /\ c.misses = Cardinality(c.store)
      /\ (c.init = 0 => (c.hits = 0 /\ c.store = {}))
      /\ (Quiet => c.hits >= c.misses)
